@@ -34,6 +34,9 @@ class DerivedProfile(StoreProfile):
         ents = run.store.listing(m.default_config)
         if not ents:
             return None
+        q = run.scratch.setdefault("queue", [])
+        if q:
+            return q.pop(0)
         r = rng.random()
         if r < 0.06:
             return {"op": "restart"}
@@ -59,6 +62,12 @@ class DerivedProfile(StoreProfile):
                     base = base + "/" + rng.choice(vals)
             elif kind < 0.6:
                 base = rng.choice(["foo/bar", "hamlet/x", "", "hamlet/a/char/bob/zzz"])
+            # asked before it exists, created, asked again: the answers must track the change
+            if (m.natural_type(base) and rng.random() < 0.5 and all(run.store.can_create(c, base) == "ok" for c in m.configs)
+                    and "." not in base.split("/")[-1]):
+                q += [{"op": "mirror", "sid": base, "data": None}, {"op": "sid", "sid": base},
+                      {"op": "sid", "sid": base.rsplit("/", 1)[0]}]
+                run.probes["asked_created_asked_again"] += 1
             return {"op": "sid", "sid": base}
         if rng.random() < 0.15:
             extra = typed_prefixes(m, ents)
